@@ -1191,14 +1191,15 @@ def run_claims(ctx):
                               "decoding and validating a signed JWT as %s raised %s, which is not in the JoseError family: %s" % (cname, type(e).__name__, str(e)[:100]), case)
 
 
-def run_oauth1_deep(ctx):
+def run_oauth1_deep(ctx, provider="flask"):
     """Correctly signed OAuth 1 requests (PLAINTEXT: the signature is secret&secret) that get past the signature check, with hostile
     values in the parameters that are read afterwards: callback, verifier, token, extra parameters, the user's decision."""
     from props import c12
     import urllib.parse as up
     rng = ctx.rng
     quick = ctx.tier == "quick"
-    lv = c12.Live(["HMAC-SHA1", "PLAINTEXT", "RSA-SHA1"])
+    lv = c12.Live(["HMAC-SHA1", "PLAINTEXT", "RSA-SHA1"], provider)
+    tag = "" if provider == "flask" else provider + ":"
     n = [0]
 
     def post(path, params, headers=None):
@@ -1229,11 +1230,11 @@ def run_oauth1_deep(ctx):
         pool = HOSTILE if not quick else rng.sample(HOSTILE, 10) + ["https://[x", "9" * 400]
         for h in pool:
             for stage in ("callback", "authorize-extra", "verifier", "token-extra", "api-extra", "deny"):
-                case = {"endpoint": "o1-deep", "stage": stage, "hostile": h}
-                ctx.case(case, ("o1-deep", stage, h), "endpoint:o1-deep:%s" % stage)
+                case = {"endpoint": tag + "o1-deep", "stage": stage, "hostile": h}
+                ctx.case(case, (tag + "o1-deep", stage, h), "endpoint:%so1-deep:%s" % (tag, stage))
                 try:
                     r = post("/initiate", signed({"oauth_callback": h if stage == "callback" else "https://c1.example/cb"}))
-                    st, d = look("o1-deep:initiate", r, case)
+                    st, d = look(tag + "o1-deep:initiate", r, case)
                     if st != 200 or "oauth_token" not in d:
                         continue
                     tok, sec = d["oauth_token"], d["oauth_token_secret"]
@@ -1242,42 +1243,47 @@ def run_oauth1_deep(ctx):
                         ap.update({"x": h, "oauth_callback": h, "oauth_verifier": h})
                     r = post("/authorize", ap, {} if stage == "deny" else {"X-User": "alice" if stage != "authorize-extra" or any(ord(c) < 32 or ord(c) == 127 for c in h) or not h
                                                else h.encode("utf-8", "surrogatepass").decode("latin-1")})
-                    st, d = look("o1-deep:authorize", r, case)
+                    st, d = look(tag + "o1-deep:authorize", r, case)
                     verifier = d.get("oauth_verifier", "v")
                     tp = {"oauth_token": tok, "oauth_verifier": h if stage == "verifier" else verifier}
                     if stage == "token-extra":
                         tp.update({"x": h, "oauth_callback": h, "scope": h})
                     r = post("/token", signed(tp, sec))
-                    st, d = look("o1-deep:token", r, case)
+                    st, d = look(tag + "o1-deep:token", r, case)
                     if st != 200 or "oauth_token" not in d:
                         continue
                     apip = {"oauth_token": d["oauth_token"]}
                     if stage == "api-extra":
                         apip.update({"x": h, "oauth_verifier": h, "oauth_callback": h})
                     r = post("/api", signed(apip, d["oauth_token_secret"]))
-                    look("o1-deep:api", r, case)
+                    look(tag + "o1-deep:api", r, case)
                 except Exception as e:  # noqa: BLE001
-                    ctx.violation("C20:crash:o1-deep:%s:%s@%s" % (stage, type(e).__name__, site(e)),
+                    ctx.violation("C20:crash:%so1-deep:%s:%s@%s" % (tag, stage, type(e).__name__, site(e)),
                                   "a correctly signed OAuth 1 request with a hostile %s ended in an unhandled %s: %s" % (stage, type(e).__name__, str(e)[:100]), case)
                     ctx.count("outcome:o1-deep:%s:crash:%s" % (stage, type(e).__name__))
     finally:
         lv.close()
 
 
-def run_oauth1(ctx):
-    """the OAuth 1 provider of the C12 harness with hostile oauth_* values, raw headers and bodies"""
+def run_oauth1(ctx, provider="flask"):
+    """the OAuth 1 provider of the C12 harness (Flask integration, or the Django one) with hostile oauth_* values, raw headers and bodies"""
     from props import c12
     rng = ctx.rng
     quick = ctx.tier == "quick"
-    lv = c12.Live(["HMAC-SHA1", "PLAINTEXT", "RSA-SHA1"])
+    lv = c12.Live(["HMAC-SHA1", "PLAINTEXT", "RSA-SHA1"], provider)
+    tag = "" if provider == "flask" else provider + ":"
     try:
         prov = lv.prov
         now = str(lv.clock.t)
         base = [("oauth_consumer_key", "c1"), ("oauth_signature_method", "PLAINTEXT"), ("oauth_timestamp", now), ("oauth_nonce", "n"), ("oauth_callback", "oob"),
                 ("oauth_signature", "s1-secret&")]
         n = 0
-        for ep, path in (("o1:initiate", "/initiate"), ("o1:token", "/token"), ("o1:authorize", "/authorize"), ("o1:api", "/api")):
+        for ep, path in ((tag + "o1:initiate", "/initiate"), (tag + "o1:token", "/token"), (tag + "o1:authorize", "/authorize"), (tag + "o1:api", "/api")):
             variants = []
+            # bodies that are not what their content type says, with POST and PUT
+            for meth_http in ("POST", "PUT"):
+                for rawb in (b"status=\xff\xfe", b"caf\xe9=1", b"%ff=%fe", b"a=%zz", b"\x00", b"a" * 20000, b"oauth_consumer_key=c1&oauth_consumer_key=c2", b"=", b"&&&"):
+                    variants.append(("raw-body:" + meth_http, {"__method__": meth_http, "__raw__": rawb}, None))
             for i, (k, _) in enumerate(base + [("oauth_token", "t"), ("oauth_verifier", "v")]):
                 for h in (HOSTILE if not quick else rng.sample(HOSTILE, 8)):
                     p = dict(base + [("oauth_token", "t"), ("oauth_verifier", "v")])
@@ -1307,7 +1313,11 @@ def run_oauth1(ctx):
                 ctx.case(case, json.dumps(case, default=repr, sort_keys=True), "endpoint:%s:%s" % (ep, lab.split(":")[0]))
                 headers = {"Authorization": rawh} if rawh is not None else {}
                 try:
-                    if rawh is not None:
+                    if "__raw__" in p:
+                        resp = prov.client.open(path, method=p["__method__"], base_url=c12.BASE, data=p["__raw__"], content_type="application/x-www-form-urlencoded",
+                                                headers={"Authorization": 'OAuth oauth_consumer_key="c1", oauth_signature_method="PLAINTEXT", oauth_signature="s1-secret%26", '
+                                                                          'oauth_timestamp="' + now + '", oauth_nonce="raw' + str(len(lab)) + str(len(p["__raw__"])) + '", oauth_callback="oob"'})
+                    elif rawh is not None:
                         resp = prov.client.open(path, method="POST", base_url=c12.BASE, headers=headers)
                     else:
                         resp = prov.client.open(path, method="POST", base_url=c12.BASE, data=p)
@@ -1319,7 +1329,7 @@ def run_oauth1(ctx):
                 body = resp.get_data(as_text=True)
                 import urllib.parse as up
                 try:
-                    d = json.loads(body) if ep == "o1:api" and body.startswith("{") else dict(up.parse_qsl(body))
+                    d = json.loads(body) if ep.endswith("o1:api") and body.startswith("{") else dict(up.parse_qsl(body))
                 except ValueError:
                     d = {}
                 if st == 302:
@@ -1349,6 +1359,8 @@ def run(ctx):
     run_endpoints(ctx, "django")
     run_oauth1(ctx)
     run_oauth1_deep(ctx)
+    run_oauth1(ctx, "django")
+    run_oauth1_deep(ctx, "django")
     run_jose(ctx)
     run_jose_json(ctx)
     run_claims(ctx)
